@@ -1,0 +1,144 @@
+//go:build verif
+
+// Contracts for package staking (C11 stake lifecycle; C02 sign/delta; C03 only the signer's records decrease;
+// C04 signatures of exactly the Signers(); C19 frozen-validator guard).
+// Comment-only file, read by /verif/govc.
+
+package staking
+
+// the decoded messages (json.Unmarshal is a function of the bytes: Validate and the body see the same message)
+//@ ghost func stakeMsg(data bytes) Stake = unm(data, "Stake")
+//@ ghost func unstakeMsg(data bytes) Unstake = unm(data, "Unstake")
+//@ ghost func withdrawMsg(data bytes) Withdraw = unm(data, "Withdraw")
+
+// oltBase(l): 10^decimals of the currency registered as "OLT": the delegation ledgers count whole OLT
+// (action.Amount.Value), the balance ledger counts base units (Value * oltBase)
+//@ ghost func oltBase(l *balance.CurrencySet) int = curBase(l.nameMap["OLT"].Decimal)
+//@ ghost func oltKey(addr bytes) string = balKey(addr, "OLT")
+
+// ================================================================ stake (stake.go)
+
+// Since fix 6d5dd82 action.Amount.ToCoinWithBase yields the invalid coin for a Value outside int64, so the
+// amount checks of the three Validates bound the untruncated Value (exported as validated facts).
+//@ func (stakeTx).Validate
+//@   implements action.Tx
+//@   ensures result0 ==> len(tx.Signatures) == 2 && sigOK(rawBytesOf(tx.RawTx), stakeMsg(tx.Data).StakeAddress, tx.Signatures[0]) && sigOK(rawBytesOf(tx.RawTx), stakeMsg(tx.Data).ValidatorAddress, tx.Signatures[1])   // C04.validate
+//@   exports len(sigs) == 2                                                                                                   // C04.validated-facts
+//@   exports raw.Fee.Price.Currency == ctx.FeePool.feeOpt.FeeCurrency.Name && raw.Fee.Price.Value >= 0                          // C04.validated-facts
+//@   exports stakeMsg(raw.Data).Stake.Currency == "OLT" && has(ctx.Currencies.nameMap, "OLT")                                      // C11.validated-facts
+//@   exports 0 <= stakeMsg(raw.Data).Stake.Value && stakeMsg(raw.Data).Stake.Value <= 9223372036854775807                       // C02.validated-facts
+//@   ensures result0 ==> bal(ctx.Balances)[oltKey(stakeMsg(tx.Data).StakeAddress)] >= stakeMsg(tx.Data).Stake.Value * oltBase(ctx.Currencies)   // C02.check
+
+// fee handling: payer is the first signer = the stake address (C03), fee conservation from action.BasicFeeHandling
+//@ func (stakeTx).ProcessCheck
+//@   implements action.Tx
+//@ func (stakeTx).ProcessDeliver
+//@   implements action.Tx
+//@ func (stakeTx).ProcessFee
+//@   implements action.Tx
+
+// read-only helper of the stake body (three typed reads and a scan of the maturing lists); only the ghost handle
+// of GetMatureAmounts changes
+//@ func isStakeAddressClean
+//@   requires ctxOK(ctx) && v != nil                                                                                          // C18.ctx
+//@   modifies dlgMObj(ctx.Delegators)
+
+//@ func runCheckStake
+//@   requires ctxOK(ctx)                                                                                                      // C18.ctx
+//@   assumes wfVS(ctx.Validators)                                                                                             // A-VS-WF validator-store invariant (proved preserved by identity's mutators); not yet part of ctxOK
+//@   requires stakeMsg(tx.Data).Stake.Currency == "OLT" && has(ctx.Currencies.nameMap, "OLT")                                 // C11.validated-facts
+//@   requires 0 <= stakeMsg(tx.Data).Stake.Value && stakeMsg(tx.Data).Stake.Value <= 9223372036854775807                       // C02.validated-facts
+//@   ensures result0 ==> !old(frozen(ctx.EvidenceStore, stakeMsg(tx.Data).ValidatorAddress))                                  // C19.frozen-guard
+//@   ensures old(frozen(ctx.EvidenceStore, stakeMsg(tx.Data).ValidatorAddress)) ==> !result0 && dlgV(ctx.Delegators) == old(dlgV(ctx.Delegators)) && dlgVD(ctx.Delegators) == old(dlgVD(ctx.Delegators)) && dlgDE(ctx.Delegators) == old(dlgDE(ctx.Delegators)) && dlgDB(ctx.Delegators) == old(dlgDB(ctx.Delegators)) && dlgVSum(ctx.Delegators) == old(dlgVSum(ctx.Delegators)) && dlgDSum(ctx.Delegators) == old(dlgDSum(ctx.Delegators)) && dlgMLen(ctx.Delegators) == old(dlgMLen(ctx.Delegators)) && dlgMAddr(ctx.Delegators) == old(dlgMAddr(ctx.Delegators)) && dlgMAmt(ctx.Delegators) == old(dlgMAmt(ctx.Delegators)) && dlgMPre(ctx.Delegators) == old(dlgMPre(ctx.Delegators)) && (forall k string :: bal(ctx.Balances)[k] == old(bal(ctx.Balances))[k]) && vHasRec(ctx.Validators) == old(vHasRec(ctx.Validators)) && vRec(ctx.Validators) == old(vRec(ctx.Validators))   // C19.frozen-no-mutation
+//@   ensures result0 ==> dlgV(ctx.Delegators)[str(stakeMsg(tx.Data).ValidatorAddress)] == old(dlgV(ctx.Delegators))[str(stakeMsg(tx.Data).ValidatorAddress)] + stakeMsg(tx.Data).Stake.Value   // C11.delta
+//@   ensures result0 ==> dlgVD(ctx.Delegators)[str(stakeMsg(tx.Data).ValidatorAddress)] == old(dlgVD(ctx.Delegators))[str(stakeMsg(tx.Data).ValidatorAddress)][str(stakeMsg(tx.Data).StakeAddress) := old(dlgVD(ctx.Delegators))[str(stakeMsg(tx.Data).ValidatorAddress)][str(stakeMsg(tx.Data).StakeAddress)] + stakeMsg(tx.Data).Stake.Value]   // C11.delta
+//@   ensures result0 ==> dlgDE(ctx.Delegators)[str(stakeMsg(tx.Data).StakeAddress)] == old(dlgDE(ctx.Delegators))[str(stakeMsg(tx.Data).StakeAddress)] + stakeMsg(tx.Data).Stake.Value   // C11.delta
+//@   ensures result0 ==> bal(ctx.Balances)[oltKey(stakeMsg(tx.Data).StakeAddress)] == old(bal(ctx.Balances))[oltKey(stakeMsg(tx.Data).StakeAddress)] - stakeMsg(tx.Data).Stake.Value * oltBase(ctx.Currencies)   // C11.stake-debit-exact
+//@   ensures result0 ==> forall k string :: bal(ctx.Balances)[k] < old(bal(ctx.Balances))[k] ==> k == oltKey(stakeMsg(tx.Data).StakeAddress)   // C03.only-signer-debited
+//@   ensures result0 ==> forall x string :: dlgV(ctx.Delegators)[x] >= old(dlgV(ctx.Delegators))[x] && dlgDE(ctx.Delegators)[x] >= old(dlgDE(ctx.Delegators))[x] && dlgDB(ctx.Delegators)[x] == old(dlgDB(ctx.Delegators))[x]   // C03.no-stake-record-debited
+//@   ensures result0 ==> forall x string :: dlgV(ctx.Delegators)[x] - dlgVSum(ctx.Delegators)[x] == old(dlgV(ctx.Delegators))[x] - old(dlgVSum(ctx.Delegators))[x]   // C11.stake-sum
+//@   ensures result0 ==> forall x string :: dlgDE(ctx.Delegators)[x] - dlgDSum(ctx.Delegators)[x] == old(dlgDE(ctx.Delegators))[x] - old(dlgDSum(ctx.Delegators))[x]   // C11.stake-sum
+//@   ensures result0 && old(vHasRec(ctx.Validators))[str(stakeMsg(tx.Data).ValidatorAddress)] ==> vRec(ctx.Validators)[str(stakeMsg(tx.Data).ValidatorAddress)].Staking - old(vRec(ctx.Validators))[str(stakeMsg(tx.Data).ValidatorAddress)].Staking == dlgV(ctx.Delegators)[str(stakeMsg(tx.Data).ValidatorAddress)] - old(dlgV(ctx.Delegators))[str(stakeMsg(tx.Data).ValidatorAddress)]   // C11.stake-sum-validator-record
+
+// ================================================================ unstake (unstake.go)
+
+// stkMaturity(ctx): the maturity period (blocks) of the staking options in force
+//@ ghost func stkMaturity(ctx *action.Context) int = stkOpt(ctx.GovernanceStore).MaturityTime
+
+// Validate compares the stake address with the validator record only when the record can be read
+// (`err == nil && ...`): for an address that is not a validator the check is skipped (claims clause).
+//@ func (unstakeTx).Validate
+//@   implements action.Tx
+//@   ensures result0 ==> len(tx.Signatures) == 2 && sigOK(rawBytesOf(tx.RawTx), unstakeMsg(tx.Data).StakeAddress, tx.Signatures[0]) && sigOK(rawBytesOf(tx.RawTx), unstakeMsg(tx.Data).ValidatorAddress, tx.Signatures[1])   // C04.validate
+//@   exports len(sigs) == 2                                                                                                   // C04.validated-facts
+//@   exports raw.Fee.Price.Currency == ctx.FeePool.feeOpt.FeeCurrency.Name && raw.Fee.Price.Value >= 0                          // C04.validated-facts
+//@   exports unstakeMsg(raw.Data).Stake.Currency == "OLT" && has(ctx.Currencies.nameMap, "OLT")                                      // C11.validated-facts
+//@   exports 0 < unstakeMsg(raw.Data).Stake.Value && unstakeMsg(raw.Data).Stake.Value <= 9223372036854775807                       // C02.validated-facts
+//@   claims result0 ==> vHasRec(ctx.Validators)[str(unstakeMsg(tx.Data).ValidatorAddress)] && str(vRec(ctx.Validators)[str(unstakeMsg(tx.Data).ValidatorAddress)].StakeAddress) == str(unstakeMsg(tx.Data).StakeAddress)   // C11.validator-binding
+
+//@ func (unstakeTx).ProcessCheck
+//@   implements action.Tx
+//@ func (unstakeTx).ProcessDeliver
+//@   implements action.Tx
+//@ func (unstakeTx).ProcessFee
+//@   implements action.Tx
+
+//@ func runCheckUnstake
+//@   requires ctxOK(ctx)                                                                                                      // C18.ctx
+//@   assumes wfVS(ctx.Validators)                                                                                             // A-VS-WF validator-store invariant (proved preserved by identity's mutators); not yet part of ctxOK
+//@   assumes 0 <= ctx.Header.Height && ctx.Header.Height <= 4611686018427387904 && 0 <= stkMaturity(ctx) && stkMaturity(ctx) <= 468000   // A-OPTRANGE block height and the governance-validated maturity option (validations.go: 109200..468000) stay far below int64 overflow
+//@   requires 0 < unstakeMsg(tx.Data).Stake.Value && unstakeMsg(tx.Data).Stake.Value <= 9223372036854775807                     // C02.validated-facts
+//@   ensures result0 ==> !old(frozen(ctx.EvidenceStore, unstakeMsg(tx.Data).ValidatorAddress))                                // C19.frozen-guard
+//@   ensures old(frozen(ctx.EvidenceStore, unstakeMsg(tx.Data).ValidatorAddress)) ==> !result0 && dlgV(ctx.Delegators) == old(dlgV(ctx.Delegators)) && dlgVD(ctx.Delegators) == old(dlgVD(ctx.Delegators)) && dlgDE(ctx.Delegators) == old(dlgDE(ctx.Delegators)) && dlgDB(ctx.Delegators) == old(dlgDB(ctx.Delegators)) && dlgVSum(ctx.Delegators) == old(dlgVSum(ctx.Delegators)) && dlgDSum(ctx.Delegators) == old(dlgDSum(ctx.Delegators)) && dlgMLen(ctx.Delegators) == old(dlgMLen(ctx.Delegators)) && dlgMAddr(ctx.Delegators) == old(dlgMAddr(ctx.Delegators)) && dlgMAmt(ctx.Delegators) == old(dlgMAmt(ctx.Delegators)) && dlgMPre(ctx.Delegators) == old(dlgMPre(ctx.Delegators)) && (forall k string :: bal(ctx.Balances)[k] == old(bal(ctx.Balances))[k]) && vHasRec(ctx.Validators) == old(vHasRec(ctx.Validators)) && vRec(ctx.Validators) == old(vRec(ctx.Validators))   // C19.frozen-no-mutation
+//@   ensures result0 ==> dlgV(ctx.Delegators)[str(unstakeMsg(tx.Data).ValidatorAddress)] == old(dlgV(ctx.Delegators))[str(unstakeMsg(tx.Data).ValidatorAddress)] - unstakeMsg(tx.Data).Stake.Value   // C11.delta
+//@   ensures result0 ==> dlgVD(ctx.Delegators)[str(unstakeMsg(tx.Data).ValidatorAddress)] == old(dlgVD(ctx.Delegators))[str(unstakeMsg(tx.Data).ValidatorAddress)][str(unstakeMsg(tx.Data).StakeAddress) := old(dlgVD(ctx.Delegators))[str(unstakeMsg(tx.Data).ValidatorAddress)][str(unstakeMsg(tx.Data).StakeAddress)] - unstakeMsg(tx.Data).Stake.Value]   // C11.delta
+//@   ensures result0 ==> dlgDE(ctx.Delegators)[str(unstakeMsg(tx.Data).StakeAddress)] == old(dlgDE(ctx.Delegators))[str(unstakeMsg(tx.Data).StakeAddress)] - unstakeMsg(tx.Data).Stake.Value   // C11.delta
+//@   ensures result0 ==> old(dlgVD(ctx.Delegators))[str(unstakeMsg(tx.Data).ValidatorAddress)][str(unstakeMsg(tx.Data).StakeAddress)] >= unstakeMsg(tx.Data).Stake.Value   // C11.unstake-covered
+//@   ensures result0 ==> forall d string :: dlgPending(ctx.Delegators, ctx.Header.Height + stkMaturity(ctx), d) == old(dlgPending(ctx.Delegators, ctx.Header.Height + stkMaturity(ctx), d)) + (d == str(unstakeMsg(tx.Data).StakeAddress) ? unstakeMsg(tx.Data).Stake.Value : 0)   // C11.maturity-recorded
+//@   ensures result0 ==> forall h int :: h != ctx.Header.Height + stkMaturity(ctx) ==> dlgMLen(ctx.Delegators)[h] == old(dlgMLen(ctx.Delegators))[h] && dlgMAddr(ctx.Delegators)[h] == old(dlgMAddr(ctx.Delegators))[h] && dlgMAmt(ctx.Delegators)[h] == old(dlgMAmt(ctx.Delegators))[h] && dlgMPre(ctx.Delegators)[h] == old(dlgMPre(ctx.Delegators))[h]   // C11.maturity-recorded
+//@   ensures result0 ==> dlgDE(ctx.Delegators)[str(unstakeMsg(tx.Data).StakeAddress)] + dlgPending(ctx.Delegators, ctx.Header.Height + stkMaturity(ctx), str(unstakeMsg(tx.Data).StakeAddress)) == old(dlgDE(ctx.Delegators))[str(unstakeMsg(tx.Data).StakeAddress)] + old(dlgPending(ctx.Delegators, ctx.Header.Height + stkMaturity(ctx), str(unstakeMsg(tx.Data).StakeAddress)))   // C11.conserve
+//@   ensures result0 ==> dlgDB(ctx.Delegators) == old(dlgDB(ctx.Delegators))                                                  // C11.nothing-unlocks
+//@   ensures result0 ==> forall k string :: bal(ctx.Balances)[k] == old(bal(ctx.Balances))[k]                                 // C11.nothing-unlocks
+//@   ensures result0 ==> forall x string :: dlgV(ctx.Delegators)[x] < old(dlgV(ctx.Delegators))[x] ==> x == str(unstakeMsg(tx.Data).ValidatorAddress)   // C03.only-signer-debited
+//@   ensures result0 ==> forall x string :: dlgDE(ctx.Delegators)[x] < old(dlgDE(ctx.Delegators))[x] ==> x == str(unstakeMsg(tx.Data).StakeAddress)   // C03.only-signer-debited
+//@   ensures result0 ==> forall x string, y string :: dlgVD(ctx.Delegators)[x][y] < old(dlgVD(ctx.Delegators))[x][y] ==> x == str(unstakeMsg(tx.Data).ValidatorAddress) && y == str(unstakeMsg(tx.Data).StakeAddress)   // C03.only-signer-debited
+//@   ensures result0 ==> forall x string :: dlgV(ctx.Delegators)[x] - dlgVSum(ctx.Delegators)[x] == old(dlgV(ctx.Delegators))[x] - old(dlgVSum(ctx.Delegators))[x]   // C11.stake-sum
+//@   ensures result0 ==> forall x string :: dlgDE(ctx.Delegators)[x] - dlgDSum(ctx.Delegators)[x] == old(dlgDE(ctx.Delegators))[x] - old(dlgDSum(ctx.Delegators))[x]   // C11.stake-sum
+//@   ensures result0 ==> old(vHasRec(ctx.Validators))[str(unstakeMsg(tx.Data).ValidatorAddress)] && vRec(ctx.Validators)[str(unstakeMsg(tx.Data).ValidatorAddress)].Staking - old(vRec(ctx.Validators))[str(unstakeMsg(tx.Data).ValidatorAddress)].Staking == dlgV(ctx.Delegators)[str(unstakeMsg(tx.Data).ValidatorAddress)] - old(dlgV(ctx.Delegators))[str(unstakeMsg(tx.Data).ValidatorAddress)]   // C11.stake-sum-validator-record
+
+// ================================================================ withdraw (withdraw.go)
+
+//@ func (withdrawTx).Validate
+//@   implements action.Tx
+//@   ensures result0 ==> len(tx.Signatures) == 2 && sigOK(rawBytesOf(tx.RawTx), withdrawMsg(tx.Data).StakeAddress, tx.Signatures[0]) && sigOK(rawBytesOf(tx.RawTx), withdrawMsg(tx.Data).ValidatorAddress, tx.Signatures[1])   // C04.validate
+//@   exports len(sigs) == 2                                                                                                   // C04.validated-facts
+//@   exports raw.Fee.Price.Currency == ctx.FeePool.feeOpt.FeeCurrency.Name && raw.Fee.Price.Value >= 0                          // C04.validated-facts
+//@   exports withdrawMsg(raw.Data).Stake.Currency == "OLT" && has(ctx.Currencies.nameMap, "OLT")                                      // C11.validated-facts
+//@   exports 0 < withdrawMsg(raw.Data).Stake.Value && withdrawMsg(raw.Data).Stake.Value <= 9223372036854775807                       // C02.validated-facts
+//@   claims result0 ==> vHasRec(ctx.Validators)[str(withdrawMsg(tx.Data).ValidatorAddress)] && str(vRec(ctx.Validators)[str(withdrawMsg(tx.Data).ValidatorAddress)].StakeAddress) == str(withdrawMsg(tx.Data).StakeAddress)   // C11.validator-binding
+
+//@ func (withdrawTx).ProcessCheck
+//@   implements action.Tx
+//@ func (withdrawTx).ProcessDeliver
+//@   implements action.Tx
+//@ func (withdrawTx).ProcessFee
+//@   implements action.Tx
+
+// The frozen guard is evaluated on the validator address NAMED in the message; the funds debited are the
+// delegator's pooled bounded amount, which DelegationStore.Withdraw does not attribute to any validator.
+//@ func runWithdraw
+//@   requires ctxOK(ctx)                                                                                                      // C18.ctx
+//@   requires withdrawMsg(tx.Data).Stake.Currency == "OLT" && has(ctx.Currencies.nameMap, "OLT")                              // C11.validated-facts
+//@   requires 0 < withdrawMsg(tx.Data).Stake.Value && withdrawMsg(tx.Data).Stake.Value <= 9223372036854775807                   // C02.validated-facts
+//@   ensures result0 ==> !old(frozen(ctx.EvidenceStore, withdrawMsg(tx.Data).ValidatorAddress))                               // C19.frozen-guard
+//@   ensures old(frozen(ctx.EvidenceStore, withdrawMsg(tx.Data).ValidatorAddress)) ==> !result0 && dlgV(ctx.Delegators) == old(dlgV(ctx.Delegators)) && dlgVD(ctx.Delegators) == old(dlgVD(ctx.Delegators)) && dlgDE(ctx.Delegators) == old(dlgDE(ctx.Delegators)) && dlgDB(ctx.Delegators) == old(dlgDB(ctx.Delegators)) && dlgVSum(ctx.Delegators) == old(dlgVSum(ctx.Delegators)) && dlgDSum(ctx.Delegators) == old(dlgDSum(ctx.Delegators)) && dlgMLen(ctx.Delegators) == old(dlgMLen(ctx.Delegators)) && dlgMAddr(ctx.Delegators) == old(dlgMAddr(ctx.Delegators)) && dlgMAmt(ctx.Delegators) == old(dlgMAmt(ctx.Delegators)) && dlgMPre(ctx.Delegators) == old(dlgMPre(ctx.Delegators)) && (forall k string :: bal(ctx.Balances)[k] == old(bal(ctx.Balances))[k]) && vHasRec(ctx.Validators) == old(vHasRec(ctx.Validators)) && vRec(ctx.Validators) == old(vRec(ctx.Validators))   // C19.frozen-no-mutation
+//@   claims result0 ==> old(vHasRec(ctx.Validators))[str(withdrawMsg(tx.Data).ValidatorAddress)] && str(old(vRec(ctx.Validators))[str(withdrawMsg(tx.Data).ValidatorAddress)].StakeAddress) == str(withdrawMsg(tx.Data).StakeAddress)   // C11.frozen-guard-binding
+//@   ensures result0 ==> dlgDB(ctx.Delegators)[str(withdrawMsg(tx.Data).StakeAddress)] == old(dlgDB(ctx.Delegators))[str(withdrawMsg(tx.Data).StakeAddress)] - withdrawMsg(tx.Data).Stake.Value   // C11.delta
+//@   ensures result0 ==> old(dlgDB(ctx.Delegators))[str(withdrawMsg(tx.Data).StakeAddress)] >= withdrawMsg(tx.Data).Stake.Value   // C11.withdraw-covered
+//@   ensures result0 ==> bal(ctx.Balances)[oltKey(withdrawMsg(tx.Data).StakeAddress)] == old(bal(ctx.Balances))[oltKey(withdrawMsg(tx.Data).StakeAddress)] + withdrawMsg(tx.Data).Stake.Value * oltBase(ctx.Currencies)   // C11.withdraw-credit-exact
+//@   ensures result0 ==> forall x string :: dlgDB(ctx.Delegators)[x] < old(dlgDB(ctx.Delegators))[x] ==> x == str(withdrawMsg(tx.Data).StakeAddress)   // C03.only-signer-debited
+//@   ensures result0 ==> forall x string :: dlgDB(ctx.Delegators)[x] <= old(dlgDB(ctx.Delegators))[x]                         // C11.only-bounded-decreases
+//@   ensures result0 ==> dlgV(ctx.Delegators) == old(dlgV(ctx.Delegators)) && dlgVD(ctx.Delegators) == old(dlgVD(ctx.Delegators)) && dlgDE(ctx.Delegators) == old(dlgDE(ctx.Delegators)) && dlgVSum(ctx.Delegators) == old(dlgVSum(ctx.Delegators)) && dlgDSum(ctx.Delegators) == old(dlgDSum(ctx.Delegators))   // C11.only-bounded-decreases
+//@   ensures result0 ==> dlgMLen(ctx.Delegators) == old(dlgMLen(ctx.Delegators)) && dlgMAddr(ctx.Delegators) == old(dlgMAddr(ctx.Delegators)) && dlgMAmt(ctx.Delegators) == old(dlgMAmt(ctx.Delegators)) && dlgMPre(ctx.Delegators) == old(dlgMPre(ctx.Delegators))   // C11.only-bounded-decreases
+//@   ensures result0 ==> forall k string :: bal(ctx.Balances)[k] >= old(bal(ctx.Balances))[k]                                 // C03.no-balance-debited
+//@   ensures result0 ==> forall k string :: k != oltKey(withdrawMsg(tx.Data).StakeAddress) ==> bal(ctx.Balances)[k] == old(bal(ctx.Balances))[k]   // C02.delta
